@@ -14,6 +14,11 @@ import time
 
 HERE = os.path.dirname(os.path.dirname(os.path.abspath(__file__)))
 REPO = os.environ.get("VERIF_REPO", "/repo")
+if os.environ.get("PYTHONHASHSEED") != "0" or HERE not in os.environ.get("PYTHONPATH", "").split(os.pathsep):
+    # the reference servers are started from the environment: same set-up as the `check` script
+    env = dict(os.environ, PYTHONHASHSEED="0", PYTHONDONTWRITEBYTECODE="1",
+               PYTHONPATH=os.pathsep.join([HERE, os.path.join(HERE, "stubs"), REPO]))
+    os.execve(sys.executable, [sys.executable] + sys.argv, env)
 sys.path[:0] = [HERE, os.path.join(HERE, "stubs"), REPO]
 
 REAL_SERVER = r'''
@@ -35,7 +40,7 @@ def add_sockets(self, sockets):
 tornado.tcpserver.TCPServer.add_sockets = add_sockets
 from nbdime.webapp import nbdimeserver, nbdiffweb, nbdifftool, nbmergeweb, nbmergetool
 mains = {"server": nbdimeserver.main, "diffweb": nbdiffweb.main, "difftool": nbdifftool.main, "mergeweb": nbmergeweb.main,
-         "mergeweb_out": nbmergeweb.main, "mergetool": nbmergetool.main}
+         "mergeweb_out": nbmergeweb.main, "mergetool": nbmergetool.main, "diffweb_refs": nbdiffweb.main}
 sys.argv[0] = %(prog)r
 rc = mains[%(mode)r](%(argv)r)
 print("EXIT", rc, flush=True)
@@ -150,10 +155,13 @@ def main():
             env = dict(r.w.env, PYTHONPATH=os.pathsep.join([REPO, os.path.join(HERE, "stubs")]))
             os.environ.clear()
             os.environ.update(env0)
-            p = subprocess.Popen([sys.executable, "-c", code], stdout=subprocess.PIPE, stderr=subprocess.DEVNULL, env=env)
+            errf = open(os.path.join(scratch, "real.err"), "wb")
+            p = subprocess.Popen([sys.executable, "-c", code], stdout=subprocess.PIPE, stderr=errf, env=env)
             line = p.stdout.readline().decode()
             if not line.startswith("PORT"):
-                print("session %d: real server did not start: %r" % (i, line))
+                p.wait()
+                print("session %d (%s): real server did not start: %r %s" % (
+                    i, trace["world"]["mode"], line, open(os.path.join(scratch, "real.err"), "rb").read().decode("utf8", "replace")[-300:]))
                 p.kill()
                 bad += 1
                 continue
